@@ -1054,6 +1054,16 @@ func c17DirectTwins(c *mon.Ctx, r *mon.Rand) {
 		tt.ReportTimer(time.Second)
 		rep.AllocateHistogram("twin_h", mon.CopyTags(ta), tally.ValueBuckets{1, 2}).ValueBucket(0, 1).ReportSamples(1)
 		rep.AllocateHistogram("twin_h", mon.CopyTags(tb), tally.ValueBuckets{1, 2}).ValueBucket(0, 1).ReportSamples(10)
+		// two handles on one series (two scopes that render to the same name and
+		// tags): the series shows the last value set through either
+		g1, g2 := rep.AllocateGauge("two_handles_g", mon.CopyTags(ta)), rep.AllocateGauge("two_handles_g", mon.CopyTags(ta))
+		g1.ReportGauge(1)
+		g2.ReportGauge(2)
+		g1.ReportGauge(1)
+		c1, c2 := rep.AllocateCounter("two_handles_c", mon.CopyTags(ta)), rep.AllocateCounter("two_handles_c", mon.CopyTags(ta))
+		c1.ReportCount(1)
+		c2.ReportCount(2)
+		c1.ReportCount(1)
 	})
 	_ = ok
 	fams, err := reg.Gather()
@@ -1088,6 +1098,22 @@ func c17DirectTwins(c *mon.Ctx, r *mon.Rand) {
 			c.Violation("prometheus-series-merged", map[string]interface{}{"why": fmt.Sprintf("family %s: series by (a|b) %v; two series were fed, %v with %v and %v with %v", f.GetName(), got, ta, w[0], tb, w[1]), "case": desc})
 		}
 		c.Event("twin-series-families-checked", 1)
+	}
+	for _, f := range fams {
+		if n := f.GetName(); n == "two_handles_g" || n == "two_handles_c" {
+			wantV := map[string]float64{"two_handles_g": 1, "two_handles_c": 4}[n]
+			ms := f.GetMetric()
+			got := math.NaN()
+			if len(ms) == 1 && ms[0].Gauge != nil {
+				got = ms[0].Gauge.GetValue()
+			} else if len(ms) == 1 && ms[0].Counter != nil {
+				got = ms[0].Counter.GetValue()
+			}
+			if got != wantV {
+				c.Violation("prometheus-value/two-handles", map[string]interface{}{"why": fmt.Sprintf("%s: one series reported through two handles (1 through the first, 2 through the second, 1 through the first again) shows %v in %d series, want %v in one", n, got, len(ms), wantV), "case": desc})
+			}
+			c.Event("two-handle-series-checked", 1)
+		}
 	}
 	for name := range want {
 		c.Violation("prometheus-series-merged", map[string]interface{}{"why": "family " + name + " is missing from Gather()", "registration_errors": regErrs, "case": desc})
